@@ -79,6 +79,9 @@ def tool(policy_file, access_file, apply_rule, is_admin=False,
         access_data['project_id'] = access_data['project']['id']
     if access_data.get('system'):
         access_data['system_scope'] = 'all'
+        # Enforcer.enforce() presents the system scope to the checks under
+        # 'system' as well
+        access_data['system'] = access_data['system_scope']
     access_data['is_admin'] = is_admin
 
     with open(policy_file, "rb", 0) as p:
